@@ -163,8 +163,10 @@ Qed.
 
 Lemma tag_eqb_refl : forall t, tag_eqb t t = true.
 Proof. intros [[a b] d]. unfold tag_eqb. cbn. rewrite !Z.eqb_refl, bytes_eqb_refl. reflexivity. Qed.
-Lemma ok_flv_refl : forall l, ok_flv l l = true.
-Proof. intros l. apply list_eqb_refl. exact tag_eqb_refl. Qed.
+
+(* the FLV oracle accepts the model's client *)
+Lemma ok_flv_model : forall reference, ok_flv reference (flv_client reference) = true.
+Proof. intros. unfold ok_flv. apply list_eqb_refl. exact tag_eqb_refl. Qed.
 
 (* ---------------------------------------------------------------- C03: the release specification *)
 Lemma snap_eqb_refl : forall s, snap_eqb s s = true.
